@@ -25,8 +25,8 @@ T_SEC, T_MSEC, T_USEC, T_NSEC, T_ABS = 0, 1, 2, 3, 4
 UNIT_NS = {T_SEC: 10 ** 9, T_MSEC: 10 ** 6, T_USEC: 10 ** 3, T_NSEC: 1}
 UNIT_NAME = {0: "s", 1: "ms", 2: "us", 3: "ns"}
 CLOCK_REALTIME, CLOCK_MONOTONIC, TFD_TIMER_ABSTIME = 0, 1, 1
-H_ADD, H_ENABLE, H_DISABLE, H_DELETE, H_READY, H_CLOSE_PEER, H_SPIN, H_CHECK, H_ENABLE_NEWFLAGS, H_POISON, H_ADD_REFUSED_TIMER = range(1, 12)
-HN = {1: "add", 2: "enable", 3: "disable", 4: "delete", 5: "ready", 6: "close-peer", 7: "spin", 8: "check", 9: "enable-newflags", 10: "poison", 11: "add-refused-timer"}
+H_ADD, H_ENABLE, H_DISABLE, H_DELETE, H_READY, H_CLOSE_PEER, H_SPIN, H_CHECK, H_ENABLE_NEWFLAGS, H_POISON, H_ADD_REFUSED_TIMER, H_REOPEN = range(1, 13)
+HN = {1: "add", 2: "enable", 3: "disable", 4: "delete", 5: "ready", 6: "close-peer", 7: "spin", 8: "check", 9: "enable-newflags", 10: "poison", 11: "add-refused-timer", 12: "reopen-same-number"}
 
 
 def build_all(report, tier):
@@ -245,6 +245,11 @@ def gen_history(rng, tier):
             steps.append((H_POISON, i, 0, 0, 0))
             if rng.below(2):
                 steps.append((H_CLOSE_PEER, i, 0, 0, 0))
+        elif r < 90 and kinds.get(i) in (0, 1):
+            # descriptor closed without delete, number reused, registered again through the same tp_udata
+            steps.append((H_REOPEN, i, 0, 0, 0))
+            if kinds.get(i) == 0:
+                steps.append((H_READY, i, 0, 0, rng.below(1000)))
         elif r < 94:
             steps.append((H_SPIN, 0, 0, 0, rng.below(8)))
         else:
@@ -255,6 +260,30 @@ def gen_history(rng, tier):
         steps.append((H_DELETE, i, 0, 0, 0))
     steps.append((H_SPIN, 0, 0, 0, 5))
     return steps
+
+
+def reopen_histories():
+    """Directed: a registered descriptor is closed without tpt_ev_del, its number is reused and registered again through
+    the same tp_udata - after a dispatch shot, after a disable, for a write end that switched itself off, and for an idle
+    persistent read end; the new registration has to be accepted and to fire."""
+    out = []
+    for k, fl, sock in ((0, TP_F_DISPATCH, 0), (0, TP_F_DISPATCH, 1), (0, 0, 0), (0, 0, 1), (1, 0, 0), (1, TP_F_DISPATCH, 1), (1, 0, 1)):
+        st = [(H_ADD, 0, k, fl, sock)]
+        if k == 0:
+            st += [(H_READY, 0, 0, 0, 0), (H_CHECK, 0, 0, 0, 0)]
+            if not fl:
+                st += [(H_DISABLE, 0, 0, 0, 0)] if sock else []
+        else:
+            st += [(H_CHECK, 0, 0, 0, 0)]
+        st += [(H_REOPEN, 0, 0, 0, 0)]
+        if k == 0:
+            st += [(H_READY, 0, 0, 0, 2)]
+        st += [(H_CHECK, 0, 0, 0, 0), (H_REOPEN, 0, 0, 0, 0)]
+        if k == 0:
+            st += [(H_READY, 0, 0, 0, 1)]
+        st += [(H_CHECK, 0, 0, 0, 0), (H_DELETE, 0, 0, 0, 0), (H_SPIN, 0, 0, 0, 5)]
+        out.append(st)
+    return out
 
 
 def encode_history(seed, steps, on_pvt=0, no_wait=0, small_idents=0):
@@ -364,6 +393,9 @@ def make_jobs(tier, exes):
         for evk, fl, ff, data, isel, cbn, tptn in chunk:
             w.u16(evk).u16(fl).u32(ff).u64(data).u8(isel).u8(cbn).u8(tptn)
         jobs.append(("valid", w.done(), chunk, exes))
+    for steps in reopen_histories():
+        for pvt in (0, 1):
+            jobs.append(("hist", encode_history(rng.u64(), steps, on_pvt=pvt), steps, exes))
     for i in range(300 if tier == "quick" else 12000):
         steps = gen_history(rng, tier)
         # every fourth history registers its events on the pool virtual thread (single worker); every fifth runs with
